@@ -1322,6 +1322,14 @@ def is1(F, R):
                         okw = all(guarded(f, d[1], lambda g, d=d: g.kind == "variant" and g.variant == ("None" if d[3].get("variant") == 0 else "Some") and "free_clusters_count" in tstr(g.term))[0]
                                   for d in f.defs().get(s["rv"]["op"]["p"]["l"], []))
                     R.require(okw, f, "assign-count", "free_clusters_count assigned wholesale outside mount", f.loc(b, i))
+    if n == 0:
+        # the volume record built in one go: FatVolume { .., free_clusters_count: info_sector.free_clusters_count(), .. }
+        pv_ = F.fn("fat::volume::parse_volume")
+        for b, i, s in pv_.stmts():
+            if s["k"] == "Assign" and s["rv"]["k"] == "Aggregate" and s["rv"].get("adt", "").endswith("FatVolume") and "free_clusters_count" in s["rv"].get("fields", []):
+                o = s["rv"]["ops"][s["rv"]["fields"].index("free_clusters_count")]
+                if any(q[0] == "call" and q[1] and q[1].endswith("InfoSector::free_clusters_count") for q in _all_subterms_through_vars(pv_, pv_.term_of_operand(o, b))):
+                    n += 1
     R.require(n >= 1, None, "mount-assign", "mount does not initialise free_clusters_count from the info sector")
 
 
